@@ -97,6 +97,21 @@ func CheckC17(c *Ctx) {
 			a[m] = 0
 			add(v.Canonical(a))
 		}
+		// every assignment with at most 2 optional metrics defined (first and last defined value of each)
+		for _, set := range gen.SparseSubsets(v, 2) {
+			base := gen.KSparseAssign(r, v, 0)
+			for mask := 0; mask < 1<<len(set); mask++ {
+				a := base.Clone()
+				for j, m := range set {
+					if mask>>j&1 == 0 {
+						a[m] = 1
+					} else {
+						a[m] = uint8(len(v.Metrics[m].Values) - 1)
+					}
+				}
+				add(v.Canonical(a))
+			}
+		}
 		for len(inputs) < c.Pick(2000, 100_000) {
 			a := gen.MixedAssign(r, v)
 			s, _ := gen.RandomSpelling(r, v, a)
